@@ -7,7 +7,8 @@
      writesched.go add, take (zero queue first), forgetStream
    A frame waiting in the scheduler is a tag (Z): PING ack = its payload id (> 0), connection WINDOW_UPDATE = 0,
    RST_STREAM = - stream id; frames of a stream (HEADERS/DATA from a handler) carry the stream id.
-   Outside the model: which stream queue `take` prefers and DATA flow control (C34), GOAWAY, the skip of frames of reset
+   Outside the model: which stream queue `take` prefers and DATA flow control (C34), GOAWAY with an error code (take()
+   disabled, 250 ms shutdown timer), the expiry of the graceful shutdown timer, the skip of frames of reset
    streams in startFrameWrite, and the memory of handler goroutines blocked on their writes. *)
 From Coq Require Import List ZArith Bool.
 Import ListNotations.
@@ -21,14 +22,18 @@ Record conn := mkC {
   needs_flush : bool;            (* sc.needsFrameFlush *)
   need_ack : bool;               (* sc.needToSendSettingsAck *)
   closed : bool;                 (* serve() has returned: connection closed *)
-  started : list Z               (* ghost: tags of the control frames handed to the writer, newest first
-                                    (settings ack = -1000000000, flush = not logged) *)
+  started : list Z;              (* ghost: tags of the control frames handed to the writer, newest first
+                                    (settings ack = -1000000000, GOAWAY = -2000000000, flush = not logged) *)
+  in_goaway : bool;              (* sc.inGoAway, graceful only: goAway(ErrCodeNo) from closeNotifyCh *)
+  need_goaway : bool;            (* sc.needToSendGoAway *)
+  max_sid : Z                    (* sc.maxStreamID *)
 }.
 
 Definition TAG_ACK : Z := -1000000000.
+Definition TAG_GOAWAY : Z := -2000000000.
 
 Definition upd_sched (c : conn) (z : list Z) (s : list (Z * list Z)) (q : Z) : conn :=
-  mkC z s q (writing c) (needs_flush c) (need_ack c) (closed c) (started c).
+  mkC z s q (writing c) (needs_flush c) (need_ack c) (closed c) (started c) (in_goaway c) (need_goaway c) (max_sid c).
 
 (* writeSched.add *)
 Fixpoint sq_push (s : list (Z * list Z)) (id tag : Z) : list (Z * list Z) :=
@@ -44,13 +49,16 @@ Definition sq_total (s : list (Z * list Z)) : Z :=
 
 (* startFrameWrite *)
 Definition start_write (c : conn) (log : list Z) : conn :=
-  mkC (zero c) (sq c) (queued c) true true (need_ack c) (closed c) (log ++ started c).
+  mkC (zero c) (sq c) (queued c) true true (need_ack c) (closed c) (log ++ started c) (in_goaway c) (need_goaway c) (max_sid c).
 
 (* scheduleFrameWrite *)
 Definition schedule (c : conn) : conn :=
   if writing c then c
+  else if need_goaway c then                        (* the GOAWAY frame goes first; it is not taken from the queue *)
+    start_write (mkC (zero c) (sq c) (queued c) (writing c) (needs_flush c) (need_ack c) (closed c) (started c)
+                     (in_goaway c) false (max_sid c)) [TAG_GOAWAY]
   else if need_ack c then
-    start_write (mkC (zero c) (sq c) (queued c) (writing c) (needs_flush c) false (closed c) (started c)) [TAG_ACK]
+    start_write (mkC (zero c) (sq c) (queued c) (writing c) (needs_flush c) false (closed c) (started c) (in_goaway c) (need_goaway c) (max_sid c)) [TAG_ACK]
   else match zero c with
        | _ :: _ =>                                   (* take(): the zero queue first; isControl -> counter-- *)
          start_write (upd_sched c (removelast (zero c)) (sq c) (queued c - 1)) [last (zero c) 0]
@@ -60,7 +68,7 @@ Definition schedule (c : conn) : conn :=
            start_write (upd_sched c [] (match removelast q with [] => r | q' => (i, q') :: r end) (queued c)) []
          | [] =>
            if needs_flush c then                     (* flushFrameWriter *)
-             mkC (zero c) (sq c) (queued c) true false (need_ack c) (closed c) (started c)
+             mkC (zero c) (sq c) (queued c) true false (need_ack c) (closed c) (started c) (in_goaway c) (need_goaway c) (max_sid c)
            else c
          end
        end.
@@ -72,20 +80,24 @@ Definition write_frame (c : conn) (stream tag : Z) : conn :=
 
 (* wroteFrame *)
 Definition wrote_frame (c : conn) : conn :=
-  schedule (mkC (zero c) (sq c) (queued c) false (needs_flush c) (need_ack c) (closed c) (started c)).
+  schedule (mkC (zero c) (sq c) (queued c) false (needs_flush c) (need_ack c) (closed c) (started c) (in_goaway c) (need_goaway c) (max_sid c)).
 
 (* events = what one iteration of the serve loop's select receives *)
 Inductive event :=
 | EPing (id : Z)            (* PING without ACK: processPing queues the ack *)
 | EPingAck                  (* PING with ACK: ignored *)
 | ESettings                 (* SETTINGS without ACK *)
-| EDataUnknown (sid : Z)    (* DATA (length > 0) for a stream that is not open: WINDOW_UPDATE refund + RST_STREAM *)
+| EDataUnknown (sid : Z)    (* DATA (length > 0) for a stream that is not open: WINDOW_UPDATE refund + RST_STREAM;
+                               after a graceful GOAWAY, DATA for streams above maxStreamID is discarded *)
+| EHeaders (sid : Z)        (* HEADERS opening stream sid (sid > maxStreamID): ignored once inGoAway *)
 | EHandlerFrame (sid tag : Z) (* a handler's frame arriving on wantWriteFrameCh *)
 | EHandlerCtl (tag : Z)     (* a handler-originated frame without stream (e.g. after the stream is gone) *)
 | ERstStream (sid : Z)      (* RST_STREAM from the client for an open stream: closeStream -> forgetStream *)
 | EWindowOverflow (sid : Z) (* WINDOW_UPDATE overflowing the send window of stream sid: for an open stream a stream error
                                FLOW_CONTROL -> resetStream (RST_STREAM queued, then closeStream -> forgetStream);
                                for a stream that is not open: ignored *)
+| EGoAway                   (* closeNotifyCh: graceful shutdown, goAway(ErrCodeNo).  The connection stays open for
+                               GracefulShutdownTimeout, take() keeps running (goAwayCode == ErrCodeNo), new HEADERS are ignored *)
 | EWrote                    (* wroteFrameCh: the writer goroutine finished a frame *)
 | ENop.                     (* anything without effect on the scheduler (HEADERS opening a stream, testHookCh, ...) *)
 
@@ -93,8 +105,13 @@ Definition handle (c : conn) (e : event) : conn :=
   match e with
   | EPing id => write_frame c 0 id
   | EPingAck => c
-  | ESettings => schedule (mkC (zero c) (sq c) (queued c) (writing c) (needs_flush c) true (closed c) (started c))
-  | EDataUnknown sid => write_frame (write_frame c 0 0) 0 (- sid)
+  | ESettings => schedule (mkC (zero c) (sq c) (queued c) (writing c) (needs_flush c) true (closed c) (started c) (in_goaway c) (need_goaway c) (max_sid c))
+  | EDataUnknown sid =>
+    if in_goaway c && (max_sid c <? sid) then c else write_frame (write_frame c 0 0) 0 (- sid)
+  | EHeaders sid =>
+    if in_goaway c then c
+    else mkC (zero c) (sq c) (queued c) (writing c) (needs_flush c) (need_ack c) (closed c) (started c)
+             (in_goaway c) (need_goaway c) sid
   | EHandlerFrame sid tag => write_frame c sid tag
   | EHandlerCtl tag => write_frame c 0 tag
   | ERstStream sid => upd_sched c (zero c) (sq_forget (sq c) sid) (queued c)
@@ -102,6 +119,9 @@ Definition handle (c : conn) (e : event) : conn :=
     if existsb (fun e => fst e =? sid) (sq c) then
       let c1 := write_frame c 0 (- sid) in upd_sched c1 (zero c1) (sq_forget (sq c1) sid) (queued c1)
     else c
+  | EGoAway =>
+    if in_goaway c then c
+    else schedule (mkC (zero c) (sq c) (queued c) (writing c) (needs_flush c) (need_ack c) (closed c) (started c) true true (max_sid c))
   | EWrote => wrote_frame c
   | ENop => c
   end.
@@ -111,7 +131,7 @@ Definition iteration (limit : Z) (c : conn) (e : event) : conn :=
   if closed c then c
   else let c' := handle c e in
        if limit <? queued c' then
-         mkC (zero c') (sq c') (queued c') (writing c') (needs_flush c') (need_ack c') true (started c')
+         mkC (zero c') (sq c') (queued c') (writing c') (needs_flush c') (need_ack c') true (started c') (in_goaway c') (need_goaway c') (max_sid c')
        else c'.
 
 Definition run_events (limit : Z) (c : conn) (evs : list event) : conn := fold_left (iteration limit) evs c.
@@ -120,7 +140,7 @@ Definition run_events (limit : Z) (c : conn) (evs : list event) : conn := fold_l
 Definition per_iteration_max : Z := 2.
 
 (* fresh connection (nothing queued, writer idle) *)
-Definition conn0 : conn := mkC [] [] 0 false false false false [].
+Definition conn0 : conn := mkC [] [] 0 false false false false [] false false 0.
 (* the state the flood starts from: the writer goroutine is blocked in the flush of the server's first frames
    because the client does not read (writingFrame = true, needsFrameFlush = false, nothing queued) *)
-Definition conn_blocked : conn := mkC [] [] 0 true false false false [].
+Definition conn_blocked : conn := mkC [] [] 0 true false false false [] false false 0.
